@@ -38,8 +38,12 @@ inductive StreamResult where
   deriving DecidableEq, Repr
 
 /-- `crypto_stream_chacha20_ietf_xor_ic`: the guard
-    `(unsigned long long) ic > (64ULL * (1ULL << 32)) / 64ULL - (mlen + 63ULL) / 64ULL` in 64-bit arithmetic -/
+    `mlen > crypto_stream_chacha20_ietf_MESSAGEBYTES_MAX ||
+     (unsigned long long) ic > (64ULL * (1ULL << 32)) / 64ULL - (mlen + 63ULL) / 64ULL` in 64-bit arithmetic.
+    (The first disjunct is the C03 fix: without it the subtraction underflows for mlen > 2^38 and the
+    guard never fires.) -/
 def ietfGuardFails (ic : UInt32) (mlen : UInt64) : Bool :=
+  mlen > (64 : UInt64) * ((1 : UInt64) <<< 32) ||
   ic.toUInt64 > ((64 : UInt64) * ((1 : UInt64) <<< 32)) / 64 - (mlen + 63) / 64
 
 def chacha_ietf_xor_ic (Bi : BlockFn) (n0 : UInt32) (ic : UInt32) (m : Bytes) : StreamResult :=
